@@ -4,6 +4,7 @@ p2p_twopass.enable("p2p_events", "p2p_resp")
 
 SPEC = {
     "id": "C29",
+    "abort_is_violation": True,  # the property is totality: a process abort / hang of the real code on a case is a violation
     "level": "proof",
     "lean_modules": ["PallasVerif.Props.C29"],
     "required_theorems": ["initiator_no_panic_partial", "responder_no_panic_partial", "initiator_panic_only_overflow",
